@@ -180,6 +180,16 @@ func DecodeNumeric(raw []byte) interface{} {
 	}
 
 	header := u16(raw, 0)
+	if header&0xC000 == 0xC000 {
+		// NUMERIC_SPECIAL: +Infinity, -Infinity, anything else is NaN (as numeric_out)
+		switch header {
+		case 0xD000:
+			return math.Inf(1)
+		case 0xF000:
+			return math.Inf(-1)
+		}
+		return math.NaN()
+	}
 	if header&0x8000 != 0 {
 		return decodeNumericShort(raw, header)
 	}
